@@ -42,6 +42,7 @@ type sessRec struct {
 type gmember struct {
 	idx      int
 	op       *cf.Op
+	topics   []string // current subscription when the application changed it (nil: op.Args)
 	group    sarama.ConsumerGroup
 	dial     *dialer
 	cfg      *sarama.Config
@@ -63,6 +64,7 @@ type gmember struct {
 }
 
 type groupScen struct {
+	metaServed map[int][]metaServed // member index+1 -> metadata responses served to its client
 	r       *run
 	c       *cf.Case
 	cl      *cluster
@@ -344,7 +346,7 @@ func scenGroup(r *run) {
 	for i := range c.Workload {
 		op := &c.Workload[i]
 		switch op.Op {
-		case "cancel", "closegroup", "crash":
+		case "cancel", "closegroup", "crash", "resub":
 			m := gs.memberByIdx(op.Actor)
 			if m == nil {
 				continue
@@ -353,6 +355,16 @@ func scenGroup(r *run) {
 			go func() {
 				defer wg.Done()
 				gs.r.nap(time.Duration(op.ThinkUs) * time.Microsecond)
+				if op.Op == "resub" {
+					// the application changes its subscription: it ends the running Consume call and calls
+					// Consume again with another topic list
+					m.mu.Lock()
+					m.topics = op.Args
+					m.mu.Unlock()
+					gs.r.probe("subscription-changed")
+					gs.appEvent(m, "cancel")
+					return
+				}
 				gs.appEvent(m, op.Op)
 			}()
 		}
@@ -484,8 +496,14 @@ func (gs *groupScen) runMember(m *gmember) {
 		m.consumeInvokeUs = k.nowUs()
 		before := len(m.sessions)
 		m.mu.Unlock()
-		k.logf("m%d Consume(%v)", m.idx, m.op.Args)
-		err := g.Consume(ctx, m.op.Args, h)
+		m.mu.Lock()
+		topics := m.op.Args
+		if m.topics != nil {
+			topics = m.topics
+		}
+		m.mu.Unlock()
+		k.logf("m%d Consume(%v)", m.idx, topics)
+		err := g.Consume(ctx, topics, h)
 		m.mu.Lock()
 		m.consumeActive = false
 		var sr *sessRec
@@ -657,8 +675,24 @@ func (gs *groupScen) checkFinalCommit(m *gmember, sr *sessRec) {
 	}
 }
 
+// metaServed: one metadata response served to a member's client (it may be applied long after it was computed:
+// responses of different connections overtake one another).
+type metaServed struct {
+	serveUs int64
+	conn    *simConn
+	corr    int32
+}
+
 func (gs *groupScen) wireModelHooks() {
 	gm := gs.gm
+	gs.cl.onMetadata = func(br *mbroker, c *simConn, corr int32, req *sarama.MetadataRequest, m *sarama.MetadataResponse) {
+		if c.owner > 0 {
+			if gs.metaServed == nil {
+				gs.metaServed = map[int][]metaServed{}
+			}
+			gs.metaServed[c.owner] = append(gs.metaServed[c.owner], metaServed{serveUs: gs.r.k.nowUs(), conn: c, corr: corr})
+		}
+	}
 	note := func(client, member string, gen int32) {
 		if gs.issuedIDs[client] == nil {
 			gs.issuedIDs[client] = map[string]bool{}
